@@ -926,7 +926,16 @@ class _AsyncConnectionWrapper:
             # Filter received messages meant for steps that were not yet run.
             messages = list(filter(lambda x: x.seq_in <= last_seq_in, self._record_messages))
             # Convert to numpy array
-            messages = jax.tree_util.tree_map(lambda *x: onp.array(x), *messages)
+            if len(messages) > 0:
+                messages = jax.tree_util.tree_map(lambda *x: onp.array(x), *messages)
+            else:  # No message was consumed by a recorded step (e.g. very short episode): empty record instead of a TypeError
+                messages = base.MessageRecord(
+                    seq_out=onp.array([], dtype=int),
+                    seq_in=onp.array([], dtype=int),
+                    ts_sent=onp.array([], dtype=float),
+                    ts_recv=onp.array([], dtype=float),
+                    delay=onp.array([], dtype=float),
+                )
             self._record = self._record.replace(messages=messages)
         return self._record
 
